@@ -757,6 +757,7 @@ func main() {
 	status := map[string]int64{}
 	groupStats := map[string]int64{}
 	noClaimWhy := map[string]int64{}
+	var oddStatus []string
 	var leaves, viaTypedef, bindErrs, specT, specErr, specNo int64
 	evaluated := 0
 	const batchSize = 3000
@@ -808,6 +809,9 @@ func main() {
 			}
 			m := parseModel(ans[i])
 			status[m.Status]++
+			if m.Status != "ok" && m.Status != "linkfail" && len(oddStatus) < 10 {
+				oddStatus = append(oddStatus, c.ID+":"+m.Status)
+			}
 			spec := parseSpec(sans[i])
 			// measured coverage
 			nt := false
@@ -893,6 +897,7 @@ func main() {
 	res.Distribution["multi_revision_import_cases"] = nRev / shards * shards
 	res.Distribution["load_process_load_process_history_cases"] = nHist / shards * shards
 	res.Distribution["model_status"] = status
+	res.Distribution["cases_not_loaded_by_either_side"] = oddStatus
 	res.Distribution["spec_verdicts_by_group"] = groupStats
 	res.Distribution["spec_no_claim_reasons"] = noClaimWhy
 	res.Distribution["leaves_compared"] = leaves
